@@ -5,6 +5,7 @@ import logging
 
 from hypothesis import strategies as st
 
+from lib import acehelp as A
 from lib import gen as G
 from lib import refsem as R
 from lib.harness import Invalid, Sub, Verdict, capture
@@ -64,16 +65,24 @@ def judge_acl(case) -> Verdict:
     kinds = {k for k, _ in body}
     v.nt(bool(kinds & {"ace", "rem"}) and bool(kinds & {"ignorable", "invalid", "overlimit"}))
     v.label(target, *sorted(kinds))
+    group_by = case.get("group_by") or ""
+    if group_by:
+        # read with a heading marker: the same lines, in blocks; markers are distinct texts (equal ones are merged by
+        # design), also when they agree up to a comma
+        marks = [s for k, s in body if k == "rem" and _norm(s).split("remark ", 1)[-1].startswith(group_by)]
+        if target != "acl" or len(set(marks)) != len(marks) or any(len(m) > 100 for m in marks):
+            raise Invalid()
+        v.label("read-with-group_by")
     try:
         if target == "acl":
-            obj = Acl(hdr + "\n" + text, platform=platform)
+            obj = Acl(hdr + "\n" + text, platform=platform, **({"group_by": group_by} if group_by else {}))
         else:
             obj = AceGroup(text, platform=platform)
     except (ValueError, TypeError) as ex:
         v.label("construction-raised:" + type(ex).__name__)
         return v
     warned = [r.getMessage() for r in cap.records if r.levelno >= logging.WARNING]
-    items = list(obj.items)
+    items = list(A.flat_items(obj.items)) if group_by else list(obj.items)
     detail = {"target": target, "platform": platform, "text": text, "items": [o.line for o in items], "warnings": warned}
     p = 0
     names = G.names_fn(platform)
@@ -155,8 +164,15 @@ def acl_case_st(draw, tier):
         else:
             lines.append({"kind": kind, "text": "permit ip 10.0.0.0 255.85.85.84 any" if draw(st.booleans())
                           else "permit ip any 0.0.0.0 255.255.85.84"})
-    return {"target": draw(st.sampled_from(["acl", "acl", "acegroup"])), "platform": platform, "lines": lines,
+    case = {"target": draw(st.sampled_from(["acl", "acl", "acegroup"])), "platform": platform, "lines": lines,
             "indent": draw(st.sampled_from([" ", "  ", "", "\t"]))}
+    if case["target"] == "acl" and draw(st.sampled_from(range(4))) == 2:
+        case["group_by"] = "= "
+        heads = draw(st.lists(st.sampled_from(["= C-1, web servers", "= C-1, db servers", "= C-2", "= C-1", "= C-2, x", "= D"]),
+                              min_size=1, max_size=3, unique=True))
+        for h_ in heads:
+            lines.insert(draw(st.integers(0, len(lines))), {"kind": "rem", "text": h_, "seq": 0})
+    return case
 
 
 # --------------------------------------------------------------------------------------- address groups
